@@ -18,9 +18,7 @@ theorem DMon.src (s : Nat) (cl : Client) (rs : DevState) : ∀ a ∈ srcActs s, 
   -- src.wmap.ok
   case inr.inr.inr.inr.inr.inr.inr.inr.inl =>
     obtain ⟨b, hb⟩ := (isWok_iff _).mp hg.2
-    have hp : (cv st.sinkCh).pending = false := by
-      have := k7; rcases hg.1.1 with e | e <;> simp_all [srcHold]
-    obtain ⟨hok, hcv⟩ := hwo b hp hb
+    obtain ⟨hok, hcv⟩ := hwo b hb
     constructor
     all_goals (try simp only [hcv])
     all_goals (first | assumption | grind)
@@ -33,7 +31,8 @@ theorem DMon.src (s : Nat) (cl : Client) (rs : DevState) : ∀ a ∈ srcActs s, 
     all_goals (first | assumption | grind)
   -- src.commit
   case inr.inr.inr.inr.inr.inr.inr.inr.inr.inr.inr.inr.inr.inr.inr.inr.inr.inr.inl =>
-    have hp : (cv st.sinkCh).pending = true := by have := k7; simp_all [srcHold]
+    have hsh : srcHold st.src.pc = true := by (have := hg.1; simp_all [srcHold])
+    have hp : (cv st.sinkCh).pending = true := k7 hsh
     obtain ⟨hok, hcv⟩ := hcm hp
     constructor
     all_goals (try simp only [hcv])
